@@ -107,6 +107,26 @@ def loops(c):
     return [st for st in c.cfg.all_stmts() if isinstance(st, (ast.For, ast.While))]
 
 
+def nonempty_of(l, pred):
+    """The literal says that a collection X with pred(X) is not empty: len(X) > 0, len(X) != 0, len(X) >= 1, 0 < len(X), or X used as a truth value."""
+    def ln(t):
+        return t[2][0] if t[0] == "call" and t[1] == G("len") and len(t[2]) == 1 else None
+    X = None
+    if l[0] == "cmp" and l[1] == ">" and l[3] == ("const", 0):
+        X = ln(l[2])
+    elif l[0] == "cmp" and l[1] == ">=" and l[3] == ("const", 1):
+        X = ln(l[2])
+    elif l[0] == "cmp" and l[1] == "<" and l[2] == ("const", 0):
+        X = ln(l[3])
+    elif l[0] == "cmp" and l[1] == "<=" and l[2] == ("const", 1):
+        X = ln(l[3])
+    elif l[0] == "not" and l[1][0] == "cmp" and l[1][1] == "==" and ("const", 0) in (l[1][2], l[1][3]):
+        X = ln(l[1][3] if l[1][2] == ("const", 0) else l[1][2])
+    elif l[0] not in ("cmp", "not", "isnone", "and", "or", "handler"):
+        X = ln(l) or l   # truthiness of len(X) or of X itself
+    return X is not None and pred(X)
+
+
 def run(prog, rep):
     rep.explanation = EXPL
     rep.assumptions = ASSUME
@@ -118,8 +138,7 @@ def run(prog, rep):
         lambda pc: any_lit(pc, lit_in("conditional_on", dd, True)) and any_lit(pc, lit_in("parameters", dd, False)),
         "a conditional description without 'parameters'")
     row(rep, prog, "unknown-keys", q, "ValueError",
-        lambda pc: any(l[0] == "cmp" and l[1] in (">", "!=") and mentions(l, ("attr", SELF, "_dist_description_keys")) for l in pc)
-        or any(l[0] == "not" and mentions(l, ("attr", SELF, "_dist_description_keys")) for l in pc),
+        lambda pc: any(nonempty_of(l, lambda X: mentions(X, ("attr", SELF, "_dist_description_keys"))) for l in pc),
         "a description with unknown keys")
     hierarchy(prog, rep)
     # the checks run before any distribution is constructed
@@ -136,7 +155,7 @@ def run(prog, rep):
     q = f"{CD}.__init__"
     par = P("parameters")
     row(rep, prog, "unknown-parameter-names", q, "ValueError",
-        lambda pc: any(l[0] == "cmp" and l[1] == ">" and l[2][0] == "call" and l[2][1] == G("len") and mentions(l, ("call", ("attr", ("call", G("set"), (par,), ()), "difference"), (("attr", SELF, "param_names"),), ())) for l in pc),
+        lambda pc: any(nonempty_of(l, lambda X: X == ("call", ("attr", ("call", G("set"), (par,), ()), "difference"), (("attr", SELF, "param_names"),), ())) for l in pc),
         "parameters naming unknown parameters of the template", anchors=lambda c: loops(c))
     getf = lambda l: l[0] == "call" and l[1] == G("getattr") and l[2][:1] == (P("distribution"),)
     row(rep, prog, "neither-fixed-nor-dependent", q, "ValueError",
